@@ -2,7 +2,7 @@
 
 From CubedV Require Import Model.Util Model.Keys Model.Geometry Model.OpsKF Model.ShapeSem Proofs.GeometryProofs Proofs.OpsKFProofs Proofs.ShapeSemProofs.
 From CubedV Require Import Model.Selection Proofs.SelectionProofs.
-From CubedV Require Import Model.StridedIndex Proofs.StridedIndexProofs.
+From CubedV Require Import Model.StridedIndex Proofs.StridedIndexProofs Model.IndexGuard Proofs.IndexGuardProofs.
 From Coq Require Import Permutation.
 
 
@@ -150,3 +150,41 @@ Print Assumptions C01_si_touched_le_declared.
 Example C01_si_ex : (map (block_positions 1 3 1 4) [0; 1; 2; 3], map (fun j => touched_chunks 4 (block_positions 1 3 1 4 j)) [0; 1; 2; 3], slice_nib 4 4 1 3 4)
   = ([[1]; [4]; [7]; [10]], [[0]; [1]; [1]; [2]], 2).
 Proof. vm_compute; reflexivity. Qed.
+
+(* -- IndexGuard.v: the per-axis arithmetic of basic indexing in the shape the source is translated into on every run -- *)
+Theorem C01_chunk_len_view : forall start stop (c step : nat),
+  chunk_lenZ (IxSlice start stop (Z.of_nat step)) (Z.of_nat c) = Z.of_nat (out_chunk_len c step).
+Proof. exact (chunk_lenZ_view). Qed.
+Print Assumptions C01_chunk_len_view.
+
+Theorem C01_merged_multiple : forall start stop c step, (0 < c)%Z -> (0 < step)%Z ->
+  exists k, (0 < k)%Z /\ merged_chunk_lenZ (IxSlice start stop step) c = (k * chunk_lenZ (IxSlice start stop step) c)%Z.
+Proof. exact (merged_multiple). Qed.
+Print Assumptions C01_merged_multiple.
+
+Theorem C01_merged_le_chunk : forall start stop c step, (0 < c)%Z -> (0 < step)%Z -> (merged_chunk_lenZ (IxSlice start stop step) c <= c)%Z.
+Proof. exact (merged_le_chunk). Qed.
+Print Assumptions C01_merged_le_chunk.
+
+Theorem C01_index_axis_factor_view : forall c nb start step L : nat, 0 < L ->
+  index_axis_factorZ (IxSlice (Z.of_nat start) (Z.of_nat (canonical_stop start step L)) (Z.of_nat step))
+                     (Z.of_nat c) (Z.of_nat (out_chunk_len c step)) (Z.of_nat nb)
+  = Some (Z.of_nat (slice_nib c nb start step L)).
+Proof. exact (index_axis_factorZ_view). Qed.
+Print Assumptions C01_index_axis_factor_view.
+
+Theorem C01_source_factor_covers_touched : forall n c start step L j,
+  0 < c -> 0 < step -> 0 < L -> start + (L - 1) * step < n ->
+  j < num_out_blocks (out_chunk_len c step) L ->
+  exists f, index_axis_factorZ (IxSlice (Z.of_nat start) (Z.of_nat (canonical_stop start step L)) (Z.of_nat step))
+                               (Z.of_nat c) (Z.of_nat (out_chunk_len c step)) (Z.of_nat ((n + c - 1) / c)) = Some f /\
+            (Z.of_nat (length (touched_chunks c (block_positions start step (out_chunk_len c step) L j))) <= f)%Z.
+Proof. exact (source_factor_covers_touched). Qed.
+Print Assumptions C01_source_factor_covers_touched.
+
+Example C01_index_guard_ex :
+  (chunk_lenZ (IxSlice 1 12 3) 4, merged_chunk_lenZ (IxSlice 1 12 3) 4, merged_chunk_lenZ (IxSlice 0 20 2) 5,
+   index_axis_factorZ (IxSlice 1 11 3) 4 1 4, index_axis_factorZ IxInt 4 1 4, index_axis_factorZ IxArr 4 4 3, index_axis_factorZ IxOther 4 4 3,
+   index_num_input_blocksZ [(IxSlice 1 11 3, 4, 1, 4); (IxArr, 4, 4, 3); (IxInt, 2, 1, 5)])%Z
+  = (1, 3, 4, Some 2, Some 1, Some 3, None, Some 6)%Z.
+Proof. vm_compute. reflexivity. Qed.
